@@ -21,7 +21,9 @@ META["C01"] = M(
     shards={"quick": 16, "thorough": 64}, budget={"quick": 120, "thorough": 1200},
     floors={"quick": {"evals": 8000, "distinct": 800}, "thorough": {"evals": 400000, "distinct": 40000}},
     required=["matvec", "matmat", "to_dense", "generic-dense", "product-dtype", "op-dtype", "shape"],
-    rule="random operator-expression trees (depth 0-4) over all operator kinds, leaf dtypes f4/f8/c8/c16 (uniform or mixed), "
+    rule="random operator-expression trees (depth 0-4) over all operator kinds and over results of cola routines used as operands "
+         "(lazy inverses, pseudo-inverses, matrix functions, Cholesky factors, plu / svd factor products), shared operator objects in "
+         "non-adjacent positions, leaf dtypes f4/f8/c8/c16 (uniform or mixed), "
          "shapes incl. 1xN/Nx1/wide, each judged against the independent reference interpreter on A@x, A@X, to_dense, densify, "
          "the generic densification path, shape, operator dtype and result dtypes; distinct = distinct canonical structure "
          "(kinds, shapes, dtypes, flags, construction route) + operand dtype/rank; non-trivial = nesting depth >= 1 or an "
@@ -31,7 +33,7 @@ META["C02"] = M(
     shards={"quick": 16, "thorough": 64}, budget={"quick": 120, "thorough": 1200},
     floors={"quick": {"evals": 20000, "distinct": 800}, "thorough": {"evals": 1500000, "distinct": 40000}},
     required=["tower-dense", "tower-right", "tower-left-vec", "tower-left-mat", "left-product", "involution"],
-    rule="random operator-expression trees (as C01) plus truly self-adjoint / PSD / unitary leaves declared as such (real and "
+    rule="random operator-expression trees (as C01, incl. results of cola routines over structured arguments) plus truly self-adjoint / PSD / unitary leaves declared as such (real and "
          "complex Hermitian) and composites of them; every tower of .T/.H up to depth 3 (all 14 in thorough, 5 sampled in quick) "
          "judged through to_dense, right product and left products (1-D and 2-D) against the reference; A.T.T / A.H.H judged for "
          "matrix, shape, dtype and annotations; distinct = canonical structure + towers + operand dtype")
@@ -51,7 +53,7 @@ META["C04"] = M(
     required=["lookup"],
     rule="complete enumeration of the lattice (function x operator kind or ordered pair of kinds x declared annotation in "
          "{none, SelfAdjoint, PSD, Stiefel, Unitary} x admitted algorithm class x omitted/explicit optional arguments x real/"
-         "complex, square and tall instances), each tuple executed on tiny instances with the dispatch tap armed, in two registry "
+         "complex, square and tall instances; plus, per kind, one operator object combined with a lazy or eager view of itself), each tuple executed on tiny instances with the dispatch tap armed, in two registry "
          "configurations (plain import; after importing the optional modules that register into the same name registry); "
          "distinct = distinct tuples; every tuple is non-trivial",
     exhaustive=True)
